@@ -220,7 +220,13 @@ func (pkt *Packet) FirstCookie() ([]byte, error) {
 	return cookie, nil
 }
 
+var errUnexpectedNonceLength = errors.New("unexpected authenticator nonce length")
+
 func (pkt *Packet) authenticate(b []byte, key []byte) error {
+	if len(pkt.Auth.Nonce) != 16 {
+		// the AEAD panics on a nonce of any other length
+		return errUnexpectedNonceLength
+	}
 	aessiv, err := miscreant.NewAEAD("AES-CMAC-SIV", key, 16)
 	if err != nil {
 		return err
